@@ -342,7 +342,7 @@ func (h *hist) inbound() {
 	switch {
 	case kindIdx < 30:
 		mt = "A"
-		switch r.Intn(8) {
+		switch r.Intn(12) {
 		case 0:
 			hb = l.hbMin - 1 - r.Intn(3)
 		case 1:
@@ -351,6 +351,14 @@ func (h *hist) inbound() {
 			hb = 0
 		case 3:
 			hb = -r.Intn(5)
+		case 4: // the edges of the permitted range, and the values just outside
+			hb = l.hbMin
+		case 5:
+			hb = l.hbMax
+		case 6:
+			hb = l.hbMin - 1
+		case 7:
+			hb = l.hbMax + 1
 		}
 		switch r.Intn(8) {
 		case 0:
@@ -1032,6 +1040,63 @@ func stalledWriter(r *rand.Rand, o *hout.Out) {
 	o.Count("ev.stalled-writer")
 }
 
+// stopEdgeTimeouts (C15, "all close-timeout values including zero"): Stop() on a logged-on session whose CloseTimeout is
+// zero (also what an application gets when it leaves the field unset), one nanosecond or a few milliseconds. Whatever the
+// timeout: exactly one Logout goes out, the context is cancelled (at once), the session no longer reports logged-on, and
+// the peer's Logout arriving afterwards is not answered by a second Logout.
+func stopEdgeTimeouts(r *rand.Rand, o *hout.Out) {
+	closeAfter := []time.Duration{0, 0, time.Nanosecond, 5 * time.Millisecond}[r.Intn(4)]
+	h := simplefixgo.NewAcceptorHandler(context.Background(), "35", 16)
+	store := memory.NewStorage()
+	s, err := session.NewAcceptorSession(makeOpts(), h, &session.LogonSettings{LogonTimeout: time.Second, CloseTimeout: closeAfter,
+		HeartBtLimits: &session.IntLimits{Min: 1, Max: 600}}, func(*session.LogonSettings) error { return nil }, store, store)
+	if err != nil {
+		panic(err)
+	}
+	_ = s.Run()
+	go func() { _ = h.Run() }()
+	h.ServeIncoming(frame(body([]fld{{"35", "A"}, {"49", "PEER"}, {"56", "ME"}, {"34", "1"}, {"52", "20240101-00:00:00.000"}, {"98", "0"}, {"108", "500"}})))
+	select {
+	case <-h.Outgoing():
+	case <-time.After(2 * time.Second):
+	}
+	_ = s.Stop()
+	logouts := 0
+	collect := func(d time.Duration) {
+		dl := time.After(d)
+		for {
+			select {
+			case w := <-h.Outgoing():
+				if _, f := render(w); f["35"] == "5" {
+					logouts++
+				}
+			case <-dl:
+				return
+			}
+		}
+	}
+	collect(150 * time.Millisecond)
+	desc := fmt.Sprintf("Stop() with close timeout %v", closeAfter)
+	cancelled := s.Context().Err() != nil
+	if logouts != 1 {
+		o.Fail("C15", "stop-does-not-send-one-logout", fmt.Sprintf("%s: %d Logout messages sent", desc, logouts))
+	}
+	if !cancelled {
+		o.Fail("C15", "stop-deadline", fmt.Sprintf("%s: context not cancelled 150 ms after Stop()", desc))
+	}
+	if s.IsLogged() {
+		o.Fail("C15", "stop-leaves-session-logged-on", desc)
+	}
+	h.ServeIncoming(frame(body([]fld{{"35", "5"}, {"49", "PEER"}, {"56", "ME"}, {"34", "2"}, {"52", "20240101-00:00:00.000"}})))
+	collect(100 * time.Millisecond)
+	if logouts > 1 {
+		o.Fail("C15", "answer-during-own-logout-mishandled", fmt.Sprintf("%s: the peer's Logout after Stop() was answered by another Logout (%d in all)", desc, logouts))
+	}
+	o.Nontrivial("C15", desc)
+	o.Count("ev.stop-edge-timeout")
+	h.Stop()
+}
+
 // stopStalled (C15): Stop() while the outgoing queue is full and nobody reads it (the peer has stopped reading): the
 // Logout cannot even be queued, yet the context must be cancelled once the close timeout has elapsed.
 func stopStalled(r *rand.Rand, o *hout.Out) {
@@ -1183,6 +1248,7 @@ func main() {
 			reuseResend(r, o, i%20 == 0)
 			stalledWriter(r, o)
 			stopStalled(r, o)
+			stopEdgeTimeouts(r, o)
 			counterSetBack(r, o)
 		}
 	}
